@@ -18,8 +18,10 @@ NPROC = os.cpu_count() or 16
 GUARD = "PARMCB_VERIF"
 
 BASE_FLAGS = ["-std=c++14", "-O2", "-DNDEBUG", "-w", "-D" + GUARD]
-ASAN_FLAGS = ["-std=c++14", "-O1", "-g", "-fno-omit-frame-pointer", "-w", "-D" + GUARD,
+ASAN_FLAGS = ["-std=c++14", "-O1", "-g", "-fno-omit-frame-pointer", "-w", "-D" + GUARD, "-DNDEBUG", "-DVH_TOUCH_RESULTS",
               "-fsanitize=address,undefined", "-fno-sanitize-recover=undefined"]
+SAN_ENV = {"ASAN_OPTIONS": "exitcode=67:detect_leaks=1:abort_on_error=0:allocator_may_return_null=1:detect_stack_use_after_return=1",
+           "UBSAN_OPTIONS": "exitcode=67:halt_on_error=1:print_stacktrace=1", "LSAN_OPTIONS": "exitcode=0"}
 
 
 class HarnessError(Exception):
